@@ -46,6 +46,7 @@ class World:
         self.CONFIRM = TOPO[topo].get('confirm', {})
         self.ENTRANCE = TOPO[topo].get('entrance', {})
         self.JAM = TOPO[topo].get('jam', {})
+        self.SHOOTABLE = TOPO[topo].get('shootable', ['bd_lock'])
         self.jammed = {}               # device -> ball resting on its jam switch (in the eject chute) instead of a ball switch
         self.CAP = CAPS[topo]
         self.h = h
@@ -189,6 +190,8 @@ class World:
         self.later(1.0, self.arrive, b)
 
     def shot(self, dev):
+        if dev not in self.SHOOTABLE:
+            return
         balls = self.at('pf')
         room = self.CAP[dev] - len(self.at(dev)) - len([1 for p in self.loc.values() if isinstance(p, tuple) and
                                                             ((p[3] == 'ok' and p[2] == dev) or (p[3] == 'back' and p[1] == dev))])
@@ -386,7 +389,7 @@ CONSTANTS
   Devs <- MCDevs
   Cap <- %s
   Target <- %s
-  Shootable = {"bd_lock"}
+  Shootable = {%s}
   Escapable = {}
   Holding = {%s}
   Sourcing = {%s}
@@ -395,7 +398,7 @@ CONSTANTS
   MaxAtt <- %s
   MaxOps = %d
 %sCHECK_DEADLOCK FALSE
-""" % (spec, t['cap'], t['tgt'], ', '.join('"%s"' % d for d in t.get('holding', [])), ', '.join('"%s"' % d for d in t.get('sourcing', [])),
+""" % (spec, t['cap'], t['tgt'], ', '.join('"%s"' % d for d in t.get('shootable', ['bd_lock'])), ', '.join('"%s"' % d for d in t.get('holding', [])), ', '.join('"%s"' % d for d in t.get('sourcing', [])),
        ', '.join('"%s"' % d for d in t.get('entrance', {})), 'TRUE' if t.get('game') else 'FALSE', t.get('att', 'MCNoAtt'), maxops, extra)
 
 
